@@ -148,7 +148,13 @@ def case_term(r):
                                                 cb(hx(ob.get('enc_p'))), cb(hx(ob.get('enc_q'))))
     if k == 'key':
         i, term, hashed = KEYFNS[sp['fn']]
-        return '(CKey %s %s %s %s %s %s %s)' % (nat(i), term, coq_bool(hashed), coq_list([argval(a) for a in (sp.get('args') or [])]),
+        args = list(sp.get('args') or [])
+        if sp['fn'].startswith('eth.Eth') and args:
+            # the harness turns the byte argument into a common.Hash with common.BytesToHash (crop from the left / left-pad to 32)
+            b = hx(args[0]['v'])
+            b = b[-32:] if len(b) > 32 else b'\x00' * (32 - len(b)) + b
+            args[0] = dict(t='b', v=b.hex())
+        return '(CKey %s %s %s %s %s %s %s)' % (nat(i), term, coq_bool(hashed), coq_list([argval(a) for a in args]),
                                                 nat(ob['class']), cb(hx(ob.get('out'))), cb(hx(ob.get('pre'))))
     if k == 'name':
         return '(CName %s %s %s %s)' % (cb(hx(sp['s'])), coq_bool(ob['client']), coq_bool(ob['src']), coq_bool(ob['dst']))
